@@ -2108,17 +2108,29 @@ class Circuit(Unitary, StateVectorMap, Collection[Operation]):
             if not gate_moved:
                 idle_cycles.append(new_cycle_index)
 
-        for i, cycle_index in enumerate(sorted(idle_cycles)):
+        # Old cycles emptied by the moves are idle as well
+        vacated = [
+            cycle_index
+            for cycle_index in range(region.min_cycle, region.max_min_cycle)
+            if self._is_cycle_idle(cycle_index)
+        ]
+
+        for i, cycle_index in enumerate(sorted(idle_cycles) + vacated):
             self.pop_cycle(cycle_index - i)
 
         region = region.shift_left(len(idle_cycles))
+        vacated = [cycle_index - len(idle_cycles) for cycle_index in vacated]
 
         # Prep output
         region = CircuitRegion({
-            qudit_index: (region.min_cycle, region[qudit_index][1])
+            qudit_index: (
+                region.min_cycle,
+                region[qudit_index][1]
+                - sum(c < region[qudit_index][1] for c in vacated),
+            )
             for qudit_index in region
         })
-        net_new_cycles = shadow_length - len(idle_cycles)
+        net_new_cycles = shadow_length - len(idle_cycles) - len(vacated)
         shadow_region = CircuitRegion({
             qudit_index: (shadow_start, shadow_map[qudit_index])
             for qudit_index in shadow_qudits
